@@ -297,6 +297,88 @@ def gen_exact_case(pyrng):
     return c
 
 
+def hausdorff(a, b):
+    a, b = np.asarray(a), np.asarray(b)
+    if len(a) == 0 or len(b) == 0:
+        return 0.0 if len(a) == len(b) else float("inf")
+    d = np.abs(a[:, None] - b[None, :])
+    return float(max(d.min(axis=1).max(), d.min(axis=0).max()))
+
+
+def gen_weak_coupling(pyrng):
+    """lanczos_eigs on two weakly coupled symmetric subsystems (coupling 1e-13..1e-3), start vector supported on the first block,
+    max_iters >= n, tolerances 1e-14..1e-3: when the tolerance resolves the coupling the Krylov space grows through it and the
+    Ritz values of the full run are the spectrum of A"""
+    g = np.random.default_rng(pyrng.getrandbits(64))
+    n1, n2 = int(g.integers(2, 6)), int(g.integers(2, 7)); n = n1 + n2
+    eps = float(10.0 ** (-g.integers(3, 14))); tol = float(10.0 ** (-g.integers(3, 15)))
+    B1 = g.standard_normal((n1, n1)); B2 = g.standard_normal((n2, n2)); Cc = eps * g.standard_normal((n2, n1))
+    S = np.zeros((n, n)); S[:n1, :n1] = (B1 + B1.T) / 2 + 3.0 * np.eye(n1); S[n1:, n1:] = (B2 + B2.T) / 2 - 2.0 * np.eye(n2)
+    S[n1:, :n1] = Cc; S[:n1, n1:] = Cc.T
+    v = np.zeros(n); v[:n1] = g.standard_normal(n1)
+    return dict(kind="dense", cplx=False, style="weak_coupling", parts=[enc(S)], n=n, n1=n1, coupling=eps, start="block1", batch=0, grades=[n],
+                v=enc(v[None, :]), max_iters=int(g.choice([n, n, n + 3])), tol=tol, entry="lanczos_eigs", family="weak_coupling")
+
+
+def oracle_eigs(c, obs):
+    """clauses about lanczos_eigs on the weak-coupling stream: (i) its values are the eigenvalues of the T that lanczos returns for
+    the same arguments; (ii) when the tolerance resolves the coupling (the remainder at the block boundary, computed here
+    independently, is >= 100 tol ||A q_1|| and well above rounding noise) n values come back and they are the spectrum of A"""
+    if not obs.get("ok"):
+        return ["raised " + obs.get("err", "")]
+    bad = []
+    S = np.asarray(dense_of(c), dtype=float)
+    n, n1 = c["n"], c["n1"]
+    scale = np.abs(S).max()
+    w = dec(obs["eigs"]).real
+    T = dec(obs["T"][0])
+    ref = np.linalg.eigvalsh(herm(T)) if T.size else np.zeros(0)
+    if len(w) != len(ref) or hausdorff(w, ref) > 1e-8 * scale:
+        bad.append(f"lanczos_eigs(tol={c['tol']}) values are not the eigenvalues of the T returned by lanczos(tol={c['tol']}) "
+                   f"({len(w)} vs {len(ref)} values, distance {hausdorff(w, ref):.3g})")
+    v = dec(c["v"])[0].real
+    U = np.zeros((n, 0)); q = v / np.linalg.norm(v); r = None
+    aq1 = np.linalg.norm(S @ q)
+    for j in range(n1):
+        U = np.concatenate([U, q[:, None]], 1)
+        x = S @ q
+        for _ in range(2):
+            x = x - U @ (U.T @ x)
+        r = np.linalg.norm(x)
+        if j < n1 - 1:
+            if r < 1e-6 * scale:
+                return bad
+            q = x / r
+    if r is not None and r > 100.0 * c["tol"] * aq1 and r > 1e3 * 1.1e-16 * scale * n:
+        lam = np.linalg.eigvalsh(S)
+        if len(w) != n:
+            bad.append(f"lanczos_eigs with max_iters >= n returned {len(w)} Ritz values for an operator of size {n} although the tolerance "
+                       f"resolves the coupling (remainder {r:.3g} = {r / (c['tol'] * aq1):.3g} x tol*||A q_1||)")
+        elif hausdorff(w, lam) > 1e-6 * scale:
+            bad.append(f"lanczos_eigs with max_iters >= n and tol={c['tol']} does not return the spectrum of A (distance {hausdorff(w, lam):.3g})")
+    return bad
+
+
+def gen_constant_recurrence(pyrng, n=None):
+    """exact inputs whose Lanczos recurrence has CONSTANT coefficients: symmetric tridiagonal Toeplitz matrices (path-graph adjacency,
+    1-D Laplacian, ...) started from e_1 or e_n: alpha_j = a, beta_j = |b| bit for bit at every step, the tracked relative error
+    beta_j/beta_1 is exactly 1 throughout, and the Krylov space is only exhausted at step n.  Sizes and step counts straddle
+    10, 50 and 100 (n in 5..16, and 52 / 101 when asked)."""
+    g = np.random.default_rng(pyrng.getrandbits(64))
+    n = int(n or g.integers(5, 17))
+    a = float(g.choice([0.0, 2.0, -1.0, 0.5])); b = float(g.choice([1.0, -1.0, 2.0, 0.5]))
+    v = np.zeros(n); v[0 if g.random() < 0.7 else n - 1] = float(g.choice([1.0, -1.0, 2.0, -0.5]))
+    c = dict(start="exact", family="toeplitz", style="exact", cplx=False, n=n, batch=0, grades=[n], v=enc(v[None, :]))
+    if g.random() < 0.5:
+        c.update(kind="tridiag", parts=[enc(np.full(n - 1, b)), enc(np.full(n, a))])
+    else:
+        c.update(kind="dense", parts=[enc(a * np.eye(n) + b * (np.eye(n, k=1) + np.eye(n, k=-1)))])
+    c["max_iters"] = int(g.choice([n, n, n + 1, n - 1, 5, 8, max(1, n // 2)]))
+    c["tol"] = float(g.choice([0.0, 1e-7, 1e-7, 1e-12, 0.25]))
+    c["entry"] = str(g.choice(["lanczos", "lanczos", "Lanczos()", "lanczos_eigs"]))
+    return c
+
+
 def coq_elem_cases(c, obs, alias_flag_present, rfix=False):
     """one single-start Coq case per batch element (element b of the batched call against the run on v_b alone)"""
     S = dense_of(c)
